@@ -556,6 +556,8 @@ fn handle_out_delete<'a>(
     output_options: &OutputOptions<'a>,
 ) -> Result<i32, MonorailError> {
     let rt = Runtime::new()?;
+    #[cfg(pnordahl_monorail_verif)]
+    crate::verif::point("lock.trying", "out_delete");
     let _guard =
         rt.block_on(core::server::LockServer::new(config.server.lock.clone()).acquire())?;
     #[cfg(pnordahl_monorail_verif)]
@@ -586,6 +588,8 @@ fn handle_run<'a>(
     work_path: &'a path::Path,
 ) -> Result<i32, MonorailError> {
     let rt = Runtime::new()?;
+    #[cfg(pnordahl_monorail_verif)]
+    crate::verif::point("lock.trying", "run");
     let _guard =
         rt.block_on(core::server::LockServer::new(config.server.lock.clone()).acquire())?;
     #[cfg(pnordahl_monorail_verif)]
@@ -617,6 +621,8 @@ fn handle_checkpoint_update<'a>(
     work_path: &'a path::Path,
 ) -> Result<i32, MonorailError> {
     let rt = Runtime::new()?;
+    #[cfg(pnordahl_monorail_verif)]
+    crate::verif::point("lock.trying", "checkpoint_update");
     let _guard =
         rt.block_on(core::server::LockServer::new(config.server.lock.clone()).acquire())?;
     #[cfg(pnordahl_monorail_verif)]
@@ -646,6 +652,8 @@ fn handle_checkpoint_delete<'a>(
     work_path: &'a path::Path,
 ) -> Result<i32, MonorailError> {
     let rt = Runtime::new()?;
+    #[cfg(pnordahl_monorail_verif)]
+    crate::verif::point("lock.trying", "checkpoint_delete");
     let _guard =
         rt.block_on(core::server::LockServer::new(config.server.lock.clone()).acquire())?;
     #[cfg(pnordahl_monorail_verif)]
